@@ -12,7 +12,7 @@ import itertools, json
 import numpy as np
 from .. import core, iso
 
-KINDS = ('labeluf', 'finduf')
+KINDS = ('labeluf', 'finduf', 'slicwin', 'sliccover')
 REAL_KIND = 'labeledreal'
 
 
@@ -93,7 +93,48 @@ def py_labeluf(shape, data0, bshape, bc, fuel):
     return [(x, N) for x in acc], term, dict(parents=_csv(data)) if term else {}
 
 
+def _seeds(S, N):
+    """for (y = S/2; y < N; y += S)"""
+    out, y = [], S // 2
+    while y < N:
+        out.append(y)
+        y += S
+    return out
+
+
+def py_slicwin(ny, nx, S, cy, cx):
+    """the window loops of slic for a centroid at the truncated position (cy, cx); C++ float->int conversions of max/min"""
+    sy, sx = int(max(0.0, float(cy - 2 * S))), int(max(0.0, float(cx - 2 * S)))
+    ey, ex = int(min(float(ny), float(cy + 2 * S))), int(min(float(nx), float(cx + 2 * S)))
+    extra = dict(lo=f'{sy},{sx}', hi=f'{ey},{ex}')
+    if sy > ey or sx > ex:
+        return None, extra                       # `for (y = start; y != end; ++y)` does not end
+    acc = []
+    y = sy
+    while y != ey:
+        x = sx
+        while x != ex:
+            acc.append((y * nx + x, ny * nx))
+            x += 1
+        y += 1
+    return acc, extra
+
+
+def py_sliccover(ny, nx, S):
+    cs = [(y, x) for y in _seeds(S, ny) for x in _seeds(S, nx)]
+    acc, seen = [], set()
+    for cy, cx in cs:
+        a, _ = py_slicwin(ny, nx, S, cy, cx)
+        acc += a
+        seen |= {i for i, _ in a}
+    return acc, dict(k=str(len(cs)), covered=str(int(seen == set(range(ny * nx)))))
+
+
 def line_for(w, q):
+    if w == 'slicwin':
+        return f"c10 kind=slicwin ny={q['ny']} nx={q['nx']} s={q['s']} cy={q['cy']} cx={q['cx']}"
+    if w == 'sliccover':
+        return f"c10 kind=sliccover ny={q['ny']} nx={q['nx']} s={q['s']}"
     if w == 'finduf':
         return f"c10 kind=finduf par={_csv(q['par'])} i={q['i']}" + (f" fuel={q['fuel']}" if q.get('fuel') is not None else '')
     return (f"c10 kind=labeluf shape={_csv(q['shape'])} data={_csv(q['data'])} bshape={_csv(q['bshape'])} bc={_csv(q['bc'])}"
@@ -102,6 +143,14 @@ def line_for(w, q):
 
 def line_and_direct(w, q):
     line = line_for(w, q)
+    if w == 'slicwin':
+        acc, extra = py_slicwin(q['ny'], q['nx'], q['s'], q['cy'], q['cx'])
+        if acc is None:
+            return line, [], False, extra
+        return line, acc, True, extra
+    if w == 'sliccover':
+        acc, extra = py_sliccover(q['ny'], q['nx'], q['s'])
+        return line, acc, True, extra
     if w == 'finduf':
         fuel = q['fuel'] if q.get('fuel') is not None else len(q['par']) + 1
         return (line,) + py_finduf(q['par'], q['i'], fuel)
@@ -123,7 +172,19 @@ def _img_case(rng):
 def model_cases(rng, n):
     out, R = [], rng.randint
     for _ in range(n):
-        if rng.random() < 0.7:
+        u = rng.random()
+        if u < 0.15:
+            ny, nx, S = R(1, 12), R(1, 12), R(1, 9)
+            q = dict(ny=ny, nx=nx, s=S, cy=R(0, ny - 1), cx=R(0, nx - 1))
+            dom = True
+            if rng.random() < 0.2:               # a centroid outside the image: the `!=` loop may run away (agreement only)
+                q.update(cy=R(-30, 40), cx=R(-30, 40))
+                dom = 0 <= q['cy'] < ny and 0 <= q['cx'] < nx
+            out.append(dict(kind='model2', which='slicwin', p=q, domain=dom))
+        elif u < 0.3:
+            ny, nx, S = R(1, 14), R(1, 14), R(1, 12)
+            out.append(dict(kind='model2', which='sliccover', p=dict(ny=ny, nx=nx, s=S), domain=True))
+        elif u < 0.8:
             out.append(dict(kind='model2', which='labeluf', p=_img_case(rng), domain=True))
         else:
             # one find: a forest (domain) or an arbitrary array (cycles, -1, out-of-range parents)
@@ -139,12 +200,39 @@ def model_cases(rng, n):
 
 
 def real_cases(rng, n):
-    return [dict(kind=REAL_KIND, which='label', p=_img_case(rng)) for _ in range(n)]
+    out = []
+    for _ in range(n):
+        if rng.random() < 0.25:
+            ny, nx = rng.randint(2, 24), rng.randint(2, 24)
+            S = rng.randint(1, 2 * min(ny, nx) - 1)              # S // 2 < min(ny, nx): accepted by the wrapper
+            out.append(dict(kind=REAL_KIND, which='slic', p=dict(ny=ny, nx=nx, s=S, seed=rng.randrange(1 << 30), iters=rng.choice([1, 3, 128]))))
+        else:
+            out.append(dict(kind=REAL_KIND, which='label', p=_img_case(rng)))
+    return out
+
+
+def _eval_real_slic(q):
+    """the real `segmentation.slic`: the number of superpixels it reports is the model's number of seed centroids, the model says
+    the first iteration covers the image, and every label of the result is a centroid index (1..K)"""
+    from mahotas import segmentation
+    line = line_for('sliccover', q)
+    d = core.drive([line])[0]
+    r = np.random.RandomState(q['seed'])
+    img = (r.rand(q['ny'], q['nx'], 3) * 255).astype(np.uint8)
+    labels, n = segmentation.slic(img, q['s'], 1.0, q['iters'])
+    fnd = []
+    if d.get('ok') != '1' or d.get('covered') != '1':
+        fnd.append(dict(kind='property', key='index-out-of-bounds:slic', detail=dict(line=line, answer=d)))
+    elif str(int(n)) != d.get('k') or labels.min() < 1 or labels.max() > int(n):
+        fnd.append(dict(kind='model', key='labeled-real:slic', detail=dict(line=line, answer=d, n=int(n), lo=int(labels.min()), hi=int(labels.max()))))
+    return dict(findings=fnd, nontrivial=True, sig=line, tags=dict(kind=REAL_KIND, which='slic', outcome='agree' if not fnd else 'differ'))
 
 
 def eval_real(case, SRC):
     import mahotas as mh
     q = case['p']
+    if case['which'] == 'slic':
+        return _eval_real_slic(q)
     line = line_for('labeluf', q)
     d = core.drive([line])[0]
     tags = dict(kind=REAL_KIND, which='label', ndim=len(q['shape']))
